@@ -393,8 +393,67 @@ func (e *Engine) deepEqual(a, b Value, depth int) *Term {
 	return nil
 }
 
+// collectIDs gathers the ids of every heap object reachable from v.
+func (e *Engine) collectIDs(v Value, ids map[int]bool) {
+	switch x := v.(type) {
+	case BytesV:
+		if x.obj != nil {
+			ids[x.obj.id] = true
+			if r := e.bytesRoot(x.obj); r != nil {
+				ids[r.id] = true
+			}
+		}
+	case SliceV:
+		if x.obj != nil && !ids[x.obj.id] {
+			ids[x.obj.id] = true
+			for i := 0; i < x.n; i++ {
+				e.collectIDs(x.obj.elems[x.off+i], ids)
+			}
+		}
+	case *StructV:
+		for _, f := range x.fields {
+			e.collectIDs(f, ids)
+		}
+	case *ArrayV:
+		for _, f := range x.elems {
+			e.collectIDs(f, ids)
+		}
+	case PtrV:
+		if x.cell != nil && !ids[x.cell.id] {
+			ids[x.cell.id] = true
+			e.collectIDs(getPath(x.cell.val, x.path), ids)
+		}
+		if x.arr != nil {
+			ids[x.arr.id] = true
+			e.collectIDs(x.arr.elems[x.idx], ids)
+		}
+	case MapV:
+		if x.obj != nil && !ids[x.obj.id] {
+			ids[x.obj.id] = true
+			for _, en := range x.obj.entries {
+				e.collectIDs(en.k, ids)
+				e.collectIDs(en.v, ids)
+			}
+		}
+	case Iface:
+		if x.typ != nil {
+			e.collectIDs(x.val, ids)
+		}
+	}
+}
+
 func (e *Engine) deepAPI(name string, args []Value) (Value, bool) {
 	switch name {
+	case "vWritesInto":
+		ids := map[int]bool{}
+		e.collectIDs(args[0], ids)
+		n := 0
+		for _, id := range e.preWriteIDs {
+			if ids[id] {
+				n++
+			}
+		}
+		return e.c64(uint64(n)), true
 	case "vDeepEqual":
 		return e.deepEqual(args[0], args[1], 0), true
 	case "vAliases":
